@@ -193,6 +193,7 @@ PROPS['C08']['apalache'] = ['LemmaDifference']
 PROPS['C09']['apalache'] = ['LemmaOverlap']
 PROPS['C10']['apalache'] = ['LemmaAllowsAll']
 PROPS['C04']['apalache'] = [('OrderLaws', 'OrderInt.tla')]
+PROPS['C16']['apalache'] = [('DiffLaws', 'OrderInt.tla')]
 for _p in ('C07', 'C08', 'C09', 'C10'):
     PROPS[_p]['tlaps'] = 'CutOrder.tla'
     # binds the proved module to Interval.tla: same operators on every pair of bounds of the large universe
@@ -282,6 +283,16 @@ MANIFEST_TEXT.update({
     'C15': dict(level='TLC checks on every session of the bounded model (three loaded intervals, two intersect/difference calls over any registers) that every register denotes its ideal set (plain set algebra on the probe universe), from which all identities of C15 follow, and derives the identities each session must honour; the programs are executed against the real crate with results fed back as operands and each derived identity, each explicit identity shape on parsed ranges, and the reusability (print / re-parse) of every intermediate result are judged by TLC on the recorded trace.',
                 note=_NOTE, design_ref='DESIGN.md section 4 (C15), 2.2', technique='TLA+ session state machine with an ideal-set ghost, model-checked with TLC; generated sessions executed against the crate and validated by TLC (trace validation)'),
 })
+
+# unbounded design-level lemmas (Apalache: all integer values; TLAPS: any strict total order), see DESIGN.md section 0
+_UNB_CUT = (' The design-level lemma behind the operation is additionally discharged without bounds: by Apalache for all integer endpoints '
+            '(spec/apalache/IntervalInt.tla) and by TLAPS for an arbitrary strict total order (spec/CutOrder.tla, bound to spec/Interval.tla by the '
+            'model spec/MC_CutBind.tla). These are statements about the specification, not about the Rust code.')
+for _p in ('C07', 'C08', 'C09', 'C10'):
+    MANIFEST_TEXT[_p] = dict(MANIFEST_TEXT[_p], level=MANIFEST_TEXT[_p]['level'] + _UNB_CUT)
+for _p, _l in (('C04', 'OrderLaws'), ('C16', 'DiffLaws')):
+    MANIFEST_TEXT[_p] = dict(MANIFEST_TEXT[_p], level=MANIFEST_TEXT[_p]['level'] +
+                             f' The design-level laws are additionally discharged by Apalache for arbitrary integer components and identifier values ({_l} in spec/apalache/OrderInt.tla): a statement about the specification, not about the Rust code.')
 # C06 is exploration driven by model-generated inputs: the specification contributes totality and the input spaces
 PROPS['C06']['level'] = 'exploration'
 NOT_APPLICABLE = []
